@@ -142,3 +142,29 @@ Section Poll.
         unfold F in *. lia.
   Qed.
 End Poll.
+
+(* ---------- the other way a follower catches up: snapshot recovery (C07) is the step [ARecover] of C05's model ---------- *)
+From Verif Require Import Model.Restore Proofs.RestoreFacts Proofs.SpecFacts Proofs.SMapFacts.
+
+Definition app_cmd (U : umap) (c : command) : umap := fst (s_handle U c).
+
+Lemma state_at_sorted (L : list command) (i : nat) : sorted (state_at umap command app_cmd [] L i).
+Proof.
+  unfold state_at. generalize (firstn i L). intros l.
+  assert (G : forall U, sorted U -> sorted (fold_left app_cmd l U)).
+  { induction l as [|c r IH]; intros U HU; simpl; [exact HU|]. apply IH. apply s_handle_sorted. exact HU. }
+  apply G. apply sorted_nil.
+Qed.
+
+(* The leader streams its table as of its applied index n (one PUT per pair in key order, then a DUMMY declaring n -
+   commandSnapshot + SnapshotServer.Stream); the follower loads the stream into a FRESH shard in batches of any size
+   (readIntoTable, Manager.Restore).  The follower then holds exactly the state and the index that [ARecover] gives it. *)
+Theorem recovery_is_restore (maxInMem : N) (size_of : bytes * bytes -> N) (s : sys umap command) :
+  let n := length (s_log umap command s) in
+  let captured := state_at umap command app_cmd [] (s_log umap command s) n in
+  let f' := s_fol umap command (Replication.step umap command app_cmd [] s (ARecover command)) in
+  restored (read_into_table maxInMem (table_stream size_of captured (Some (N.of_nat n)))) = (f_store umap f', N.of_nat (f_lidx umap f')).
+Proof.
+  intros n captured f'. unfold f'. cbn [Replication.step s_fol f_store f_lidx]. fold n. fold captured.
+  apply restore_exact. apply state_at_sorted.
+Qed.
